@@ -19,6 +19,7 @@ package index
 
 import (
 	"os"
+	"sync"
 
 	"go.uber.org/atomic"
 
@@ -52,6 +53,8 @@ type Sequence struct {
 	tagValue *atomic.Uint32
 
 	buf []byte // mmap buf
+	// mutex orders the write of a new counter value into the mmap buf.
+	mutex sync.Mutex
 }
 
 // NewSequence creates a Sequence.
@@ -89,22 +92,34 @@ func (s *Sequence) GetMetricNameSeq() uint32 {
 
 // GenNamespaceSeq generates sequence for namespace.
 func (s *Sequence) GenNamespaceSeq() uint32 {
-	return s.ns.Inc() - 1
+	return s.next(s.ns, NamespaceOffset)
 }
 
 // GenMetricNameSeq generates sequence for metric name.
 func (s *Sequence) GenMetricNameSeq() uint32 {
-	return s.metric.Inc() - 1
+	return s.next(s.metric, MetricNameOffset)
 }
 
 // GenTagKeySeq generates sequence for tag key.
 func (s *Sequence) GenTagKeySeq() uint32 {
-	return s.tagKey.Inc() - 1
+	return s.next(s.tagKey, TagKeyOffset)
 }
 
 // GenTagValueSeq generates sequence for tag value.
 func (s *Sequence) GenTagValueSeq() uint32 {
-	return s.tagValue.Inc() - 1
+	return s.next(s.tagValue, TagValueOffset)
+}
+
+// next allocates the next value of a counter and stores the new counter value into the mmap buf
+// right away: an id that was handed out (and may already be referenced by index entries or data
+// files flushed before the next Sync) is then never handed out again after a process crash.
+func (s *Sequence) next(counter *atomic.Uint32, offset int) uint32 {
+	s.mutex.Lock()
+	defer s.mutex.Unlock()
+
+	v := counter.Inc()
+	stream.PutUint32(s.buf, offset, v)
+	return v - 1
 }
 
 // Sync persists the sequence data.
